@@ -1,1 +1,212 @@
-/-! # C16 — property theorems (stub: not built yet) -/
+import KM.Model.Conc
+/-! # C16 — concurrent requests are race-free and do not undo or double-spend
+
+Three kinds of statement: (1) lockset facts over the regenerated access table; (2) what the
+load-modify-save design does guarantee (requests on different users commute; a one-time TOTP
+evaluation is serialised by its mutex); (3) **proved negations** for what it does not guarantee
+— the lost update and the bootstrap-OTP double spend are known findings replayed on the real
+handlers on every run. -/
+namespace KM.Conc
+
+/-- **Lockset**: every access to `localAuthData`, `vipPushCookie`, `pendingOauth2`,
+`totpLocalRateLimit` outside single-threaded initialisation, and every comparison of the signer
+with nil (the seal test, including readyz's), is dominated by `Lock()` of the guarding mutex; each field does occur in the table. -/
+theorem c16_locked :
+    KM.Gen.sharedAccesses.all (fun a => a.2.2) = true ∧
+    ["localAuthData", "vipPushCookie", "pendingOauth2", "totpLocalRateLimit", "Signer"].all
+      (fun f => KM.Gen.sharedAccesses.any (fun a => a.2.1 == f.toList)) = true := by decide
+
+/-! ### what holds -/
+
+theorem setUser_comm (s : Store) (u v : User) (p q : Profile) (h : u ≠ v) :
+    setUser (setUser s u p) v q = setUser (setUser s v q) u p := by
+  funext w
+  unfold setUser
+  by_cases h1 : w = v
+  · by_cases h2 : w = u
+    · subst h1; subst h2; exact absurd rfl h
+    · simp [h1, h2]; intro e; exact absurd e.symm h
+  · by_cases h2 : w = u
+    · simp [h1, h2]; intro e; exact absurd e h
+    · simp [h1, h2]
+
+theorem setUser_other (s : Store) (u v : User) (p : Profile) (h : v ≠ u) : setUser s u p v = s v := by
+  simp [setUser, h]
+
+/-- the task component of a step depends on the store only through the task's own user -/
+theorem stepTask_task_congr (s s' : Store) (t : Task) (h : s t.user = s' t.user) :
+    (stepTask s t).2 = (stepTask s' t).2 := by
+  unfold stepTask
+  cases t.status with
+  | some _ => rfl
+  | none =>
+    cases t.loaded with
+    | none => simp [h]
+    | some p =>
+      simp only
+      cases decide t.kind p with
+      | mk o st => cases o <;> rfl
+
+/-- a step touches the store at most at the task's own user -/
+theorem stepTask_store_other (s : Store) (t : Task) (v : User) (h : v ≠ t.user) :
+    (stepTask s t).1 v = s v := by
+  unfold stepTask
+  cases t.status with
+  | some _ => rfl
+  | none =>
+    cases t.loaded with
+    | none => rfl
+    | some p =>
+      simp only
+      cases decide t.kind p with
+      | mk o st =>
+        cases o with
+        | none => rfl
+        | some p' => exact setUser_other s t.user v p' h
+
+/-- the stored value written by a step does not depend on other users' entries -/
+theorem stepTask_store_self (s s' : Store) (t : Task) (h : s t.user = s' t.user) :
+    (stepTask s t).1 t.user = (stepTask s' t).1 t.user := by
+  unfold stepTask
+  cases t.status with
+  | some _ => exact h
+  | none =>
+    cases t.loaded with
+    | none => exact h
+    | some p =>
+      simp only
+      cases decide t.kind p with
+      | mk o st =>
+        cases o with
+        | none => exact h
+        | some p' => simp [setUser]
+
+theorem stepTask_user (s : Store) (t : Task) : (stepTask s t).2.user = t.user := by
+  unfold stepTask
+  cases t.status with
+  | some _ => rfl
+  | none =>
+    cases t.loaded with
+    | none => rfl
+    | some p =>
+      simp only
+      cases decide t.kind p with
+      | mk o st => cases o <;> rfl
+
+/-- steps of requests on different users commute -/
+theorem steps_commute (s : Store) (a b : Task) (h : a.user ≠ b.user) :
+    (stepTask (stepTask s a).1 b).1 = (stepTask (stepTask s b).1 a).1 ∧
+    (stepTask (stepTask s a).1 b).2 = (stepTask s b).2 ∧
+    (stepTask (stepTask s b).1 a).2 = (stepTask s a).2 := by
+  have hb : (stepTask s a).1 b.user = s b.user := stepTask_store_other s a b.user (fun e => h e.symm)
+  have ha : (stepTask s b).1 a.user = s a.user := stepTask_store_other s b a.user h
+  refine ⟨?_, stepTask_task_congr _ _ b hb, stepTask_task_congr _ _ a ha⟩
+  funext v
+  by_cases hva : v = a.user
+  · subst hva
+    rw [stepTask_store_other _ b _ h]
+    exact (stepTask_store_self _ _ a ha).symm
+  · by_cases hvb : v = b.user
+    · subst hvb
+      rw [stepTask_store_other (stepTask s b).1 a _ hva]
+      exact stepTask_store_self _ _ b hb
+    · rw [stepTask_store_other _ b v hvb, stepTask_store_other _ a v hva,
+          stepTask_store_other _ a v hva, stepTask_store_other _ b v hvb]
+
+/-- adjacent steps of different-user requests can be swapped in any schedule -/
+theorem run_swap (s : Store) (a b : Task) (rest : List Bool) (h : a.user ≠ b.user) :
+    run s a b (true :: false :: rest) = run s a b (false :: true :: rest) := by
+  obtain ⟨h1, h2, h3⟩ := steps_commute s a b h
+  simp only [run]
+  rw [h1, h2, h3]
+
+/-- **Different users serialise**: for two requests on different users' profiles, each of the six
+interleavings of their load and save steps ends in the same store and the same two answers as
+serving them one after another. -/
+theorem c16_serializable_partial (s : Store) (a b : Task) (h : a.user ≠ b.user)
+    (sched : List Bool)
+    (hs : sched ∈ [[true, true, false, false], [true, false, true, false], [true, false, false, true],
+                   [false, true, true, false], [false, true, false, true], [false, false, true, true]]) :
+    run s a b sched = run s a b seqAB := by
+  have hu1 : (stepTask s a).2.user ≠ b.user := by rw [stepTask_user]; exact h
+  have hu2 : a.user ≠ (stepTask s b).2.user := by rw [stepTask_user]; exact h
+  have hu3 : (stepTask s a).2.user ≠ (stepTask (stepTask s a).1 b).2.user := by
+    rw [stepTask_user, stepTask_user]; exact h
+  -- AABB is the reference; derive the others by adjacent swaps
+  have e1 : run s a b [true, false, true, false] = run s a b seqAB := by
+    show run s a b (true :: false :: true :: [false]) = run s a b (true :: true :: false :: [false])
+    simp only [run]
+    have := run_swap (stepTask s a).1 (stepTask s a).2 b [false] hu1
+    simp only [run] at this
+    exact this.symm
+  have e2 : run s a b [true, false, false, true] = run s a b [true, false, true, false] := by
+    simp only [run]
+    have := run_swap (stepTask (stepTask s a).1 b).1 (stepTask s a).2 (stepTask (stepTask s a).1 b).2 [] hu3
+    simp only [run] at this
+    exact this.symm
+  have e3 : run s a b [false, true, true, false] = run s a b [true, false, true, false] :=
+    (run_swap s a b [true, false] h).symm
+  have e4 : run s a b [false, true, false, true] = run s a b [true, false, false, true] :=
+    (run_swap s a b [false, true] h).symm
+  have e5 : run s a b [false, false, true, true] = run s a b [false, true, false, true] := by
+    simp only [run]
+    have := run_swap (stepTask s b).1 a (stepTask s b).2 [true] hu2
+    simp only [run] at this
+    exact this.symm
+  simp only [List.mem_cons, List.not_mem_nil, or_false] at hs
+  rcases hs with h | h | h | h | h | h <;> subst h
+  · rfl
+  · exact e1
+  · exact e2.trans e1
+  · exact e3.trans e1
+  · exact e4.trans (e2.trans e1)
+  · exact e5.trans (e4.trans (e2.trans e1))
+
+/-- **One-time code, two simultaneous submissions**: the spacing test-and-set is atomic, so of two
+submissions less than two seconds apart (in either order) at most one gets its code evaluated. -/
+theorem c16_totp_once (last t1 t2 : Int) (hc : t2 < t1 + 2) :
+    ¬ ((spacing last t1).1 = true ∧ (spacing (spacing last t1).2 t2).1 = true) := by
+  intro ⟨h1, h2⟩
+  by_cases hl : last + 2 > t1
+  · simp [spacing, hl] at h1
+  · have e : spacing last t1 = (true, t1) := by simp [spacing, hl]
+    rw [e] at h2
+    have : t1 + 2 > t2 := by omega
+    simp [spacing, this] at h2
+
+/-! ### what does not hold (known findings — witnesses) -/
+
+def tokensFixture : Profile :=
+  { u2f := fun i => if i = 1 ∨ i = 2 then some { enabled := true, name := 0 } else none,
+    totp := fun i => if i = 1 then some { enabled := true, name := 0 } else none,
+    bootstrap := false }
+
+def otpFixture : Profile := { u2f := fun _ => none, totp := fun _ => none, bootstrap := true }
+
+/-- **Lost update (finding)**: `Disable token 1` (A) and `rename token 2` (B) on one user, schedule
+load A, load B, save A, save B: both are acknowledged with 200, yet token 1 is enabled again —
+an outcome neither sequential order produces. -/
+theorem c16_lost_update_witness :
+    let r := run (fun _ => tokensFixture) (mk 0 (.u2f 1 .disable)) (mk 0 (.u2f 2 (.rename 7)))
+      [true, false, true, false]
+    r.2.1.status = some 200 ∧ r.2.2.status = some 200 ∧
+    (r.1 0).u2f 1 = some { enabled := true, name := 0 } ∧
+    ((run (fun _ => tokensFixture) (mk 0 (.u2f 1 .disable)) (mk 0 (.u2f 2 (.rename 7))) seqAB).1 0).u2f 1
+      = some { enabled := false, name := 0 } ∧
+    ((run (fun _ => tokensFixture) (mk 0 (.u2f 1 .disable)) (mk 0 (.u2f 2 (.rename 7))) seqBA).1 0).u2f 1
+      = some { enabled := false, name := 0 } := by
+  decide
+
+/-- **Bootstrap OTP double spend (finding)**: the same one-time value presented by two sessions at
+the same moment (load A, load B, save A, save B) is honoured twice; sequentially the second gets 412. -/
+theorem c16_bootstrap_double_spend_witness :
+    let r := run (fun _ => otpFixture) (mk 0 (.bootstrap true)) (mk 0 (.bootstrap true))
+      [true, false, true, false]
+    r.2.1.status = some 200 ∧ r.2.2.status = some 200 ∧
+    (run (fun _ => otpFixture) (mk 0 (.bootstrap true)) (mk 0 (.bootstrap true)) seqAB).2.2.status = some 412 := by
+  decide
+
+/-- non-vacuity of `c16_serializable_partial`: two different users exist and the schedule set is inhabited -/
+example : (mk 0 (.u2f 1 .disable)).user ≠ (mk 1 (.u2f 1 .delete)).user := by decide
+
+end KM.Conc
